@@ -4,8 +4,9 @@
 # seeded patch applied, using a private copy of /verif whose harness crates point at that worktree, so that
 # neither /repo nor the checks other sessions are running are disturbed. Prints the verdict lines.
 P="$1"; patch="$2"; tier="${3:-quick}"
-R=/tmp/seedrun
+R="${SEEDRUN:-/tmp/seedrun}"      # one private copy per concurrent user: SEEDRUN=/tmp/seedrun2 bin/seedtest.sh ...
 mkdir -p $R
+exec 9>$R/.lock; flock 9          # two runs on one copy would rewrite the paths twice
 head=$(git -C /repo rev-parse HEAD)
 if [ ! -d $R/repo ]; then git -C /repo worktree add --detach $R/repo "$head" >/dev/null 2>&1 || exit 2; fi
 git -C $R/repo checkout -q -- . && git -C $R/repo checkout -q --detach "$head" || exit 2
@@ -15,6 +16,7 @@ rsync -a --include '*/' --include '*.vo' --include '*.glob' --include '*_model.m
 mkdir -p $R/verif/harness/target && cp -u /verif/harness/target/libsvio.so $R/verif/harness/target/ 2>/dev/null
 for f in $R/verif/harness/*/Cargo.toml; do sed -i "s|/repo/crates|$R/repo/crates|g" "$f"; done
 sed -i "s|/verif/harness/target/libsvio.so|$R/verif/harness/target/libsvio.so|g" $R/verif/checks/*.py 2>/dev/null
+sed -i "s#^REPO = \"/repo\"#REPO = \"$R/repo\"#" $R/verif/checks/*.py 2>/dev/null
 if ! git -C $R/repo apply --check "$patch" 2>/dev/null; then echo "PATCH-DOES-NOT-APPLY"; exit 2; fi
 git -C $R/repo apply "$patch"
 cd $R/verif && timeout 3400 bin/check "$P" --tier "$tier" 2>&1 | grep -E "^(OK|VIOLATION|KNOWN-FINDING|CHECK-ERROR)"
